@@ -153,13 +153,15 @@ def handle : List String → String
     | none => "bad-op"
   | ["slip132.kind", ver] =>
     match fromHex? ver with
-    | some v => match Slip132.addressKind (Address.toNats v) with
+    | some v => match (Slip132.addressDispatch (Address.toNats v)).bind fun p => Slip132.functionKind p.1 with
       | some k => s!"ok {k}"
       | none => "ok none"
     | none => "bad-op"
-  | ["slip132.version", ver, k] =>
+  | ["slip132.version", ver, k, prv] =>
     match fromHex? ver, k.toNat? with
-    | some v, some k => match Slip132.versionFor (Address.toNats v) k with
+    | some v, some k =>
+      match Slip132.builderVersion (["p2pkh_xkey", "p2wpkh_xkey", "p2wpkh_p2sh_xkey"].getD k "") (Address.toNats v)
+          (prv == "True") with
       | some r => "ok " ++ toHex (Address.ofNats r)
       | none => "err value"
     | _, _ => "bad-op"
